@@ -1,9 +1,76 @@
-//! probe
+//! Property check C15 — speculative lanes fork faithfully and settle lawfully.
+//!
+//! Explicit-state breadth-first search over operation histories of the real `WorldlineRuntime` +
+//! `ProvenanceService` (both cloned as the search state, fresh `Engine` per tick).  Operations:
+//! parent tick with one of the parent intents, fork of the next strand at *every* tick of the
+//! parent (and of a live strand lane in the nested configuration), strand tick with one of the
+//! strand intents, settlement under the default and the allow-plural policy, support pin / unpin.
+//! Every visited state is additionally probed (without changing it) with: plan twice (purity),
+//! settlement with injected failures (global-tick overflow after 0/1/2 appended entries, frontier
+//! drift) and a menu of malformed fork requests.
+//!
+//! The oracles are written from the property statement and use an abstract view of a worldline
+//! state (`Abs`: every node record, edge record, attachment and instance record read through the
+//! public store iterators) and abstract diffs between replayed states — never the declared
+//! footprints, except to *weaken* the must-import obligation (see `check_settle`).
+
+use mc::{json, Level, Report, Value};
 use rules::fixture::{self, wl, Rt};
 use rules::{Program, Step};
-use warp_core::*;
+use std::collections::{BTreeMap, BTreeSet};
+use warp_core::verif_hooks as hooks;
+use warp_core::{
+    compute_commit_hash_v2, make_head_id, make_strand_id, ActorId, AdmissionScopeId,
+    AttachmentOwner, AuthorityBinding, AuthorityDomainId, AuthorityDomainRef, BraidShellOutcome,
+    CausalAuthority, CausalPosture, ForkBasisRef, ForkStrandReceipt, ForkStrandRequest,
+    InboxPolicy, IngressDisposition, OriginId, PlaybackMode, PostureDerivation, ProvenanceEntry,
+    ProvenanceEventKind, ProvenanceService, ProvenanceStore, RetentionContractId,
+    RetentionPosture, SchedulerKind, SealStrength, SettlementDecision, SettlementPlan,
+    SettlementPolicy, SettlementResult, SettlementService, SlotId, StrandId, WorldlineId,
+    WorldlineRuntime, WorldlineState, WorldlineTick, WriterHead, WriterHeadKey,
+};
 
-fn posture() -> RetentionPosture {
+// ---------------------------------------------------------------------------------------------
+// naming
+// ---------------------------------------------------------------------------------------------
+
+fn parent() -> WorldlineId {
+    wl(1)
+}
+fn child(k: u8) -> WorldlineId {
+    wl(10 + k)
+}
+fn sid(k: u8) -> StrandId {
+    make_strand_id(&format!("s{k}"))
+}
+fn shead(k: u8) -> WriterHeadKey {
+    WriterHeadKey {
+        worldline_id: child(k),
+        head_id: make_head_id(&format!("sh{k}")),
+    }
+}
+fn phead() -> WriterHeadKey {
+    WriterHeadKey {
+        worldline_id: parent(),
+        head_id: make_head_id("h0"),
+    }
+}
+fn wt(t: u64) -> WorldlineTick {
+    WorldlineTick::from_raw(t)
+}
+fn mk_head(key: WriterHeadKey) -> WriterHead {
+    WriterHead::with_routing(key, PlaybackMode::Play, InboxPolicy::AcceptAll, None, true)
+}
+fn wname(w: WorldlineId) -> String {
+    let b = w.as_bytes()[0];
+    if b == 1 {
+        "parent".into()
+    } else {
+        format!("strand{}", b.wrapping_sub(10))
+    }
+}
+
+fn shared_posture() -> RetentionPosture {
     let origin_id = OriginId::from_bytes([0x51; 32]);
     let authority = AuthorityDomainRef::new(origin_id, AuthorityDomainId::from_bytes([0x52; 32]));
     RetentionPosture::new(
@@ -16,82 +83,2058 @@ fn posture() -> RetentionPosture {
             AuthorityBinding::LocalUnbound { origin: origin_id },
             SealStrength::Advisory,
         )
-        .unwrap(),
+        .expect("authority"),
         RetentionContractId::from_bytes([0x54; 32]),
         Some(AdmissionScopeId::from_bytes([0x55; 32])),
     )
-    .unwrap()
+    .expect("posture")
 }
 
-fn main() {
-    let mut rt = Rt::new(1, 1);
-    let px = Program::new(vec![Step::SetNodeAtt { n: 1, v: 1 }]);
-    let py = Program::new(vec![Step::SetNodeAtt { n: 2, v: 1 }]);
-    let sx = Program::new(vec![Step::SetNodeAtt { n: 1, v: 2 }]);
-    let rx = Program::new(vec![Step::CopyNodeAtt { from: 1, to: 0 }]);
-    println!("{:?}", rt.runtime.ingest(fixture::intent_default(wl(1), &py)));
-    let recs = rt.super_tick(SchedulerKind::Radix).unwrap();
-    println!("steps {:?}", recs.len());
-    let e = rt.provenance.entry(wl(1), WorldlineTick::from_raw(0)).unwrap();
-    show("entry0", &e);
-    let child = wl(9);
-    let hk = WriterHeadKey { worldline_id: child, head_id: make_head_id("s0") };
-    let rec = rt.runtime.fork_strand(
-        &mut rt.provenance,
-        ForkStrandRequest {
-            strand_id: make_strand_id("s1"),
-            source_lane_id: wl(1),
-            fork_tick: WorldlineTick::from_raw(0),
-            child_worldline_id: child,
-            writer_heads: vec![WriterHead::with_routing(hk, PlaybackMode::Play, InboxPolicy::AcceptAll, None, true)],
-            retention_posture: posture(),
-        },
+fn policy(plural: bool) -> SettlementPolicy {
+    if plural {
+        SettlementPolicy::allow_plural_over_footprint_overlap([0x77; 32])
+    } else {
+        SettlementPolicy::default()
+    }
+}
+
+// ---------------------------------------------------------------------------------------------
+// configurations (alphabets)
+// ---------------------------------------------------------------------------------------------
+
+#[derive(Clone)]
+struct Cfg {
+    name: &'static str,
+    parent: Vec<Program>,
+    strand: Vec<Program>,
+    max_strands: u8,
+    pins: bool,
+    nested: bool,
+    depth: usize,
+    /// failed-fork / injected-failure probes on states up to this depth
+    probe_depth: usize,
+    /// operations executed (and checked) before the search starts; reported paths include them
+    prefix: Vec<Op>,
+}
+
+fn prog(steps: Vec<Step>) -> Program {
+    Program::new(steps)
+}
+
+/// X = attachment of n1, Y = attachment of n2, Z = attachment of n3.
+fn slots_parent() -> Vec<Program> {
+    vec![
+        prog(vec![Step::SetNodeAtt { n: 1, v: 1 }]),      // X := "A"
+        prog(vec![Step::SetNodeAtt { n: 2, v: 1 }]),      // Y := "A"
+        prog(vec![Step::CopyNodeAtt { from: 1, to: 3 }]), // Z := X   (reads X)
+    ]
+}
+fn slots_strand() -> Vec<Program> {
+    vec![
+        prog(vec![Step::SetNodeAtt { n: 1, v: 2 }]),      // X := "AB"
+        prog(vec![Step::SetNodeAtt { n: 2, v: 2 }]),      // Y := "AB"
+        prog(vec![Step::CopyNodeAtt { from: 1, to: 3 }]), // Z := X   (same bytes as the parent's)
+    ]
+}
+/// Structural alphabet: node record, edge record, edge attachment.
+fn struct_parent() -> Vec<Program> {
+    vec![
+        prog(vec![Step::UpsertNode { n: 3, ty: 1 }]),
+        prog(vec![Step::SetEdgeAtt { e: 0, v: 1 }]),
+        prog(vec![Step::UpsertEdge { e: 1, from: 0, to: 2, ty: 0 }]),
+    ]
+}
+fn struct_strand() -> Vec<Program> {
+    vec![
+        prog(vec![Step::UpsertNode { n: 3, ty: 2 }]),
+        prog(vec![Step::SetEdgeAtt { e: 0, v: 2 }]),
+        prog(vec![Step::UpsertEdge { e: 1, from: 0, to: 2, ty: 1 }]),
+        prog(vec![Step::SetNodeAtt { n: 2, v: 2 }]),
+    ]
+}
+
+fn genesis_program() -> Program {
+    prog(vec![Step::ReadNode { n: 0 }])
+}
+
+// ---------------------------------------------------------------------------------------------
+// abstract view
+// ---------------------------------------------------------------------------------------------
+
+type H = [u8; 32];
+
+#[derive(Clone, Debug, PartialEq, Eq, PartialOrd, Ord, Hash)]
+enum Loc {
+    Inst(H),
+    Node(H, H),
+    Edge(H, H),
+    NAtt(H, H),
+    EAtt(H, H),
+}
+impl Loc {
+    fn short(&self) -> String {
+        let h = |x: &H| mc::hex(&x[..3]);
+        match self {
+            Loc::Inst(w) => format!("inst:{}", h(w)),
+            Loc::Node(_, n) => format!("node:{}", h(n)),
+            Loc::Edge(_, e) => format!("edge:{}", h(e)),
+            Loc::NAtt(_, n) => format!("natt:{}", h(n)),
+            Loc::EAtt(_, e) => format!("eatt:{}", h(e)),
+        }
+    }
+}
+type Abs = BTreeMap<Loc, String>;
+type Diff = BTreeMap<Loc, Option<String>>;
+
+fn abs(ws: &WorldlineState) -> Abs {
+    let s = ws.warp_state();
+    let mut m = Abs::new();
+    for inst in hooks::warp_state::instances(s) {
+        m.insert(Loc::Inst(inst.warp_id.0), format!("{inst:?}"));
+    }
+    for wid in hooks::warp_state::store_ids(s) {
+        let Some(st) = s.store(&wid) else { continue };
+        for (nid, rec) in st.iter_nodes() {
+            m.insert(Loc::Node(wid.0, nid.0), format!("{rec:?}"));
+        }
+        for (_, bucket) in st.iter_edges() {
+            for rec in bucket {
+                m.insert(Loc::Edge(wid.0, rec.id.0), format!("{rec:?}"));
+            }
+        }
+        for (nid, v) in st.iter_node_attachments() {
+            m.insert(Loc::NAtt(wid.0, nid.0), format!("{v:?}"));
+        }
+        for (eid, v) in st.iter_edge_attachments() {
+            m.insert(Loc::EAtt(wid.0, eid.0), format!("{v:?}"));
+        }
+    }
+    m
+}
+
+/// Locations whose value differs, with the value in `b` (`None` = absent in `b`).
+fn diff(a: &Abs, b: &Abs) -> Diff {
+    let mut d = Diff::new();
+    for (k, v) in a {
+        match b.get(k) {
+            Some(v2) if v2 == v => {}
+            other => {
+                d.insert(k.clone(), other.cloned());
+            }
+        }
+    }
+    for (k, v) in b {
+        if !a.contains_key(k) {
+            d.insert(k.clone(), Some(v.clone()));
+        }
+    }
+    d
+}
+
+fn apply_diff(a: &mut Abs, d: &Diff) {
+    for (k, v) in d {
+        match v {
+            Some(v) => {
+                a.insert(k.clone(), v.clone());
+            }
+            None => {
+                a.remove(k);
+            }
+        }
+    }
+}
+
+fn slot_loc(s: &SlotId) -> Option<Loc> {
+    match s {
+        SlotId::Node(nk) => Some(Loc::Node(nk.warp_id.0, nk.local_id.0)),
+        SlotId::Edge(ek) => Some(Loc::Edge(ek.warp_id.0, ek.local_id.0)),
+        SlotId::Attachment(k) => Some(match k.owner {
+            AttachmentOwner::Node(nk) => Loc::NAtt(nk.warp_id.0, nk.local_id.0),
+            AttachmentOwner::Edge(ek) => Loc::EAtt(ek.warp_id.0, ek.local_id.0),
+        }),
+        SlotId::Port(_) => None,
+    }
+}
+
+// ---------------------------------------------------------------------------------------------
+// state
+// ---------------------------------------------------------------------------------------------
+
+#[derive(Clone)]
+struct St {
+    rt: Rt,
+    /// hash of the full Debug fingerprint (runtime + provenance)
+    fp: H,
+    parts: Parts,
+    /// per-worldline fingerprint: frontier, provenance entries/checkpoints, heads + inboxes
+    wf: BTreeMap<WorldlineId, H>,
+    /// strand registry fingerprint
+    reg: H,
+}
+
+fn lane_fp(rt: &Rt, w: WorldlineId) -> H {
+    use std::fmt::Write;
+    let mut s = HashW(blake3::Hasher::new());
+    let _ = write!(s, "{:?}", rt.runtime.worldlines().get(&w));
+    let len = rt.provenance.len(w).unwrap_or(0);
+    let _ = write!(
+        s,
+        "|len={len}|u0={:?}|ib={:?}",
+        rt.provenance.u0(w),
+        rt.provenance.initial_boundary_hash(w)
     );
-    println!("fork {:?}", rec);
-    println!("{:?}", rt.runtime.ingest(fixture::intent_default(child, &sx)));
-    println!("dup? {:?}", rt.runtime.ingest(fixture::intent_default(child, &py)));
-    let recs = rt.super_tick(SchedulerKind::Radix).unwrap();
-    println!("steps {:?}", recs.len());
-    println!("{:?}", rt.runtime.ingest(fixture::intent_default(child, &rx)));
-    rt.super_tick(SchedulerKind::Radix).unwrap();
-    println!("{:?}", rt.runtime.ingest(fixture::intent_default(wl(1), &px)));
-    rt.super_tick(SchedulerKind::Radix).unwrap();
-    let e = rt.provenance.entry(child, WorldlineTick::from_raw(2)).unwrap();
-    show("child2", &e); for t in 0..rt.provenance.len(wl(1)).unwrap() { show("parent", &rt.provenance.entry(wl(1), WorldlineTick::from_raw(t)).unwrap()); }
-    let plan = SettlementService::plan(&rt.runtime, &rt.provenance, make_strand_id("s1"));
-    println!("plan {}", short(&format!("{:?}", plan.as_ref().map(|p| &p.decisions))));println!("report {}", short(&format!("{:?}", plan.as_ref().map(|p| &p.basis_report))));
-    let res = SettlementService::settle(&mut rt.runtime, &mut rt.provenance, make_strand_id("s1"));
-    println!("settle {}", short(&format!("{:?}", res.map(|r| (r.appended_imports, r.appended_conflicts, r.appended_plurals, r.braid_shell)))));for t in 0..rt.provenance.len(wl(1)).unwrap() { show("parent", &rt.provenance.entry(wl(1), WorldlineTick::from_raw(t)).unwrap()); }
-    println!("fp len {}", rt.fingerprint().len());
+    for t in 0..len {
+        let _ = write!(s, "|{:?}", rt.provenance.entry(w, wt(t)));
+    }
+    for t in 0..=len + 1 {
+        let _ = write!(s, "|{:?}", rt.provenance.checkpoint_before(w, wt(t)));
+    }
+    for (k, h) in rt.runtime.heads().iter() {
+        if k.worldline_id == w {
+            let _ = write!(s, "|{h:?}");
+        }
+    }
+    *s.0.finalize().as_bytes()
 }
 
-fn short(s: &str) -> String {
-    // collapse [a, b, c, ... 32 numbers] into hex prefix
-    let mut out = String::new();
-    let b = s.as_bytes();
-    let mut i = 0;
-    while i < b.len() {
-        if b[i] == b'[' {
-            if let Some(j) = s[i..].find(']') {
-                let inner = &s[i + 1..i + j];
-                let parts: Vec<&str> = inner.split(", ").collect();
-                if parts.len() == 32 && parts.iter().all(|p| p.parse::<u8>().is_ok()) {
-                    out.push_str(&format!("#{:02x}{:02x}{:02x}", parts[0].parse::<u8>().unwrap(), parts[1].parse::<u8>().unwrap(), parts[2].parse::<u8>().unwrap()));
-                    i += j + 1;
-                    continue;
+impl St {
+    fn of(rt: Rt) -> St {
+        let parts = parts(&rt);
+        let fp = mc::h(&[parts.0, parts.1].concat());
+        let mut wf = BTreeMap::new();
+        let ids: Vec<WorldlineId> = rt.runtime.worldlines().iter().map(|(w, _)| *w).collect();
+        for w in ids {
+            wf.insert(w, lane_fp(&rt, w));
+        }
+        let reg = dbg_hash(rt.runtime.strands());
+        St { rt, fp, parts, wf, reg }
+    }
+    fn live(&self, cfg: &Cfg) -> Vec<u8> {
+        (1..=cfg.max_strands)
+            .filter(|k| self.rt.runtime.strands().contains(&sid(*k)))
+            .collect()
+    }
+    fn len(&self, w: WorldlineId) -> u64 {
+        self.rt.provenance.len(w).unwrap_or(0)
+    }
+}
+
+/// `WorldlineRuntime` holds a `Cell` (an instrumentation counter), so it is `Send` but not `Sync`;
+/// the BFS shares states between rayon workers by reference, hence the mutex.
+struct Sh(std::sync::Mutex<St>);
+impl Sh {
+    fn new(s: St) -> Sh {
+        Sh(std::sync::Mutex::new(s))
+    }
+    fn with<R>(&self, f: impl FnOnce(&St) -> R) -> R {
+        let g = self.0.lock().unwrap_or_else(|e| e.into_inner());
+        f(&g)
+    }
+}
+impl Clone for Sh {
+    fn clone(&self) -> Sh {
+        self.with(|s| Sh::new(s.clone()))
+    }
+}
+
+fn base_ref() -> world::RefState {
+    let mut s = fixture::base_state();
+    s.nodes.insert((0, 3), 0);
+    s
+}
+
+/// A runtime with the parent worldline only (no history).
+fn empty_rt() -> Rt {
+    let mut runtime = WorldlineRuntime::new();
+    runtime
+        .register_worldline(parent(), fixture::worldline_state(&base_ref()))
+        .expect("register parent");
+    runtime
+        .register_writer_head(mk_head(phead()))
+        .expect("register parent head");
+    let mut provenance = ProvenanceService::new();
+    let st = runtime.worldlines().get(&parent()).expect("parent").state().clone();
+    provenance
+        .register_worldline(parent(), &st)
+        .expect("register provenance");
+    Rt {
+        runtime,
+        provenance,
+        heads: vec![phead()],
+    }
+}
+
+/// BFS root: the parent has committed one genesis tick (so that tick 0 exists and can be forked).
+fn root_state() -> Result<St, String> {
+    let mut rt = empty_rt();
+    match rt
+        .runtime
+        .ingest(fixture::intent_default(parent(), &genesis_program()))
+    {
+        Ok(IngressDisposition::Accepted { .. }) => {}
+        other => return Err(format!("genesis ingest: {other:?}")),
+    }
+    rt.super_tick(SchedulerKind::Radix)
+        .map_err(|e| format!("genesis tick: {e:?}"))?;
+    if rt.provenance.len(parent()).unwrap_or(0) != 1 {
+        return Err("genesis tick did not commit".into());
+    }
+    Ok(St::of(rt))
+}
+
+// ---------------------------------------------------------------------------------------------
+// operations
+// ---------------------------------------------------------------------------------------------
+
+#[derive(Clone, Debug, PartialEq, Eq)]
+enum Op {
+    /// parent tick with parent intent i
+    PTick(u8),
+    /// fork strand k from lane `src` (0 = parent, s = strand s's lane) at tick t
+    Fork { k: u8, src: u8, t: u64 },
+    /// strand k tick with strand intent j
+    STick(u8, u8),
+    /// settle strand k (plural policy?)
+    Settle(u8, bool),
+    Pin(u8, u8),
+    Unpin(u8, u8),
+}
+
+impl Op {
+    fn enc(&self) -> String {
+        match self {
+            Op::PTick(i) => format!("P{i}"),
+            Op::Fork { k, src, t } => format!("F{k}<{src}@{t}"),
+            Op::STick(k, j) => format!("S{k}:{j}"),
+            Op::Settle(k, p) => format!("T{k}{}", if *p { "p" } else { "d" }),
+            Op::Pin(a, b) => format!("N{a}>{b}"),
+            Op::Unpin(a, b) => format!("U{a}>{b}"),
+        }
+    }
+    fn dec(s: &str) -> Option<Op> {
+        let b = s.as_bytes();
+        let d = |c: u8| (c as char).to_digit(10).map(|x| x as u8);
+        match *b.first()? {
+            b'P' => Some(Op::PTick(s[1..].parse().ok()?)),
+            b'F' => {
+                let k = d(*b.get(1)?)?;
+                let rest = &s[3..];
+                let (src, t) = rest.split_once('@')?;
+                Some(Op::Fork {
+                    k,
+                    src: src.parse().ok()?,
+                    t: t.parse().ok()?,
+                })
+            }
+            b'S' => {
+                let (k, j) = s[1..].split_once(':')?;
+                Some(Op::STick(k.parse().ok()?, j.parse().ok()?))
+            }
+            b'T' => Some(Op::Settle(d(*b.get(1)?)?, *b.get(2)? == b'p')),
+            b'N' => {
+                let (a, c) = s[1..].split_once('>')?;
+                Some(Op::Pin(a.parse().ok()?, c.parse().ok()?))
+            }
+            b'U' => {
+                let (a, c) = s[1..].split_once('>')?;
+                Some(Op::Unpin(a.parse().ok()?, c.parse().ok()?))
+            }
+            _ => None,
+        }
+    }
+}
+
+fn path_str(path: &[Op], op: Option<&Op>) -> Vec<String> {
+    let mut v: Vec<String> = path.iter().map(Op::enc).collect();
+    if let Some(o) = op {
+        v.push(o.enc());
+    }
+    v
+}
+
+struct Ctx<'a> {
+    r: &'a Report,
+    cfg: &'a Cfg,
+    /// paths handed to the checks already start at the genesis root
+    replaying: bool,
+}
+
+impl Ctx<'_> {
+    /// Path from the genesis root: configuration prefix (unless `path` already starts with it,
+    /// as during the prefix execution itself and in replay) + search path.
+    fn full_path(&self, path: &[Op], op: Option<&Op>) -> Vec<String> {
+        let mut v = Vec::new();
+        if !self.replaying {
+            v.extend(self.cfg.prefix.iter().map(Op::enc));
+        }
+        v.extend(path_str(path, op));
+        v
+    }
+    fn viol(&self, sig: &str, path: &[Op], op: Option<&Op>, extra: Value) {
+        self.r.violation(
+            &format!("C15:{sig}"),
+            json!({"case": {"cfg": self.cfg.name, "path": self.full_path(path, op)}, "what": extra}),
+        );
+    }
+}
+
+fn err_name<E: std::fmt::Debug>(e: &E) -> String {
+    let s = format!("{e:?}");
+    s.split(|c: char| !(c.is_alphanumeric() || c == '_'))
+        .next()
+        .unwrap_or("?")
+        .to_string()
+}
+fn err_name2<E: std::fmt::Debug>(e: &E) -> String {
+    // first two identifiers (e.g. Runtime/GlobalTickOverflow)
+    let s = format!("{e:?}");
+    let v: Vec<&str> = s
+        .split(|c: char| !(c.is_alphanumeric() || c == '_'))
+        .filter(|x| !x.is_empty())
+        .take(2)
+        .collect();
+    v.join("/")
+}
+
+struct HashW(blake3::Hasher);
+impl std::fmt::Write for HashW {
+    fn write_str(&mut self, s: &str) -> std::fmt::Result {
+        self.0.update(s.as_bytes());
+        Ok(())
+    }
+}
+/// Hash of the `Debug` rendering (streamed, no 150 kB strings).
+fn dbg_hash<T: std::fmt::Debug>(t: &T) -> H {
+    use std::fmt::Write;
+    let mut w = HashW(blake3::Hasher::new());
+    let _ = write!(w, "{t:?}");
+    *w.0.finalize().as_bytes()
+}
+/// (Debug hash of the runtime, Debug hash of the provenance service).
+type Parts = (H, H);
+fn parts(rt: &Rt) -> Parts {
+    (dbg_hash(&rt.runtime), dbg_hash(&rt.provenance))
+}
+
+/// Which part of the cloneable system is not Debug-identical (for all-or-nothing signatures).
+fn residue(a: Parts, b: &Rt) -> Option<&'static str> {
+    let pb = parts(b);
+    match (a.0 != pb.0, a.1 != pb.1) {
+        (false, false) => None,
+        (true, false) => Some("runtime"),
+        (false, true) => Some("provenance"),
+        (true, true) => Some("runtime+provenance"),
+    }
+}
+
+/// A lane is verifiable from its own history: frontier tick = history length, replay from history
+/// reproduces the frontier (state root and abstract content), the tip entry commits to that root.
+fn check_lane(cx: &Ctx, rt: &Rt, w: WorldlineId, tag: &str, path: &[Op], op: Option<&Op>) {
+    let Some(f) = rt.runtime.worldlines().get(&w) else {
+        cx.viol(&format!("{tag}:lane-missing"), path, op, json!({"lane": wname(w)}));
+        return;
+    };
+    let len = rt.provenance.len(w).unwrap_or(u64::MAX);
+    if f.frontier_tick().as_u64() != len {
+        cx.viol(
+            &format!("{tag}:frontier-tick-differs-from-history-length"),
+            path,
+            op,
+            json!({"lane": wname(w), "frontier": f.frontier_tick().as_u64(), "history": len}),
+        );
+        return;
+    }
+    match rt.provenance.replay_worldline_state(w, f.state()) {
+        Ok(rep) => {
+            if rep.state_root() != f.state().state_root() || abs(&rep) != abs(f.state()) {
+                cx.viol(
+                    &format!("{tag}:replay-from-own-history-differs-from-frontier"),
+                    path,
+                    op,
+                    json!({"lane": wname(w)}),
+                );
+            }
+        }
+        Err(e) => cx.viol(
+            &format!("{tag}:replay-from-own-history-fails"),
+            path,
+            op,
+            json!({"lane": wname(w), "err": format!("{e:?}")}),
+        ),
+    }
+    if len > 0 {
+        if let Ok(e) = rt.provenance.entry(w, wt(len - 1)) {
+            if e.expected.state_root != f.state().state_root() {
+                cx.viol(
+                    &format!("{tag}:tip-entry-root-differs-from-frontier"),
+                    path,
+                    op,
+                    json!({"lane": wname(w)}),
+                );
+            }
+        }
+    }
+}
+
+/// Hash-chain check of one entry against its predecessor (C05 oracle, restricted to what C15 says).
+fn check_chain(
+    cx: &Ctx,
+    rt: &Rt,
+    w: WorldlineId,
+    t: u64,
+    tag: &str,
+    path: &[Op],
+    op: Option<&Op>,
+) {
+    let Ok(e) = rt.provenance.entry(w, wt(t)) else {
+        cx.viol(&format!("{tag}:entry-missing"), path, op, json!({"tick": t}));
+        return;
+    };
+    let mut bad = Vec::new();
+    if e.worldline_id != w || e.worldline_tick != wt(t) {
+        bad.push("coordinate");
+    }
+    let prev = if t == 0 {
+        None
+    } else {
+        rt.provenance.entry(w, wt(t - 1)).ok()
+    };
+    let want_parents: Vec<_> = prev.iter().map(|p| p.as_ref()).collect();
+    if e.parents != want_parents {
+        bad.push("parents");
+    }
+    if let Some(p) = &prev {
+        if e.commit_global_tick <= p.commit_global_tick {
+            bad.push("global-tick-not-increasing");
+        }
+    }
+    match &e.patch {
+        Some(p) => {
+            if p.patch_digest != e.expected.patch_digest {
+                bad.push("patch-digest");
+            }
+            let parent_hashes: Vec<H> = want_parents.iter().map(|p| p.commit_hash).collect();
+            let want = compute_commit_hash_v2(
+                &e.expected.state_root,
+                &parent_hashes,
+                &e.expected.patch_digest,
+                p.policy_id(),
+            );
+            if want != e.expected.commit_hash {
+                bad.push("commit-hash");
+            }
+            if p.commit_global_tick() != e.commit_global_tick {
+                bad.push("patch-global-tick");
+            }
+        }
+        None => bad.push("no-patch"),
+    }
+    if !bad.is_empty() {
+        cx.viol(
+            &format!("{tag}:appended-entry-does-not-chain:{}", bad.join("+")),
+            path,
+            op,
+            json!({"lane": wname(w), "tick": t}),
+        );
+    }
+}
+
+fn do_tick(cx: &Ctx, pre: &St, w: WorldlineId, p: &Program, path: &[Op], op: &Op) -> Option<St> {
+    let r = cx.r;
+    let mut rt = pre.rt.clone();
+    match rt.runtime.ingest(fixture::intent_default(w, p)) {
+        Ok(IngressDisposition::Accepted { .. }) => {}
+        Ok(IngressDisposition::Duplicate { .. }) => {
+            r.outcome("tick:intent-duplicate(pruned)");
+            return None;
+        }
+        Err(e) => {
+            r.outcome(&format!("tick:ingest-error:{}", err_name(&e)));
+            return None;
+        }
+    }
+    let len0 = pre.len(w);
+    if let Err(e) = rt.super_tick(SchedulerKind::Radix) {
+        r.machinery_error(&format!("super_tick failed: {e:?} at {:?}", path_str(path, Some(op))));
+        return None;
+    }
+    let len1 = rt.provenance.len(w).unwrap_or(0);
+    if len1 != len0 + 1 {
+        r.outcome("tick:no-commit(pruned)");
+        return None;
+    }
+    let post = St::of(rt);
+    let is_parent = w == parent();
+    r.outcome(if is_parent { "tick:parent" } else { "tick:strand" });
+    // ISOLATION: every other lane's fingerprint is unchanged.
+    for (x, f0) in &pre.wf {
+        if *x == w {
+            continue;
+        }
+        if post.wf.get(x) != Some(f0) {
+            let sig = if is_parent {
+                "isolation:parent-tick-changed-strand-lane".to_string()
+            } else if *x == parent() {
+                "isolation:strand-tick-changed-parent-lane".to_string()
+            } else {
+                "isolation:strand-tick-changed-other-strand-lane".to_string()
+            };
+            cx.viol(&sig, path, Some(op), json!({"ticked": wname(w), "changed": wname(*x)}));
+        }
+    }
+    if post.wf.len() != pre.wf.len() {
+        cx.viol("isolation:tick-changed-lane-set", path, Some(op), json!({}));
+    }
+    if post.reg != pre.reg {
+        cx.viol("isolation:tick-changed-strand-registry", path, Some(op), json!({}));
+    }
+    if post.wf.get(&w) == pre.wf.get(&w) {
+        cx.viol("tick:committed-but-lane-unchanged", path, Some(op), json!({}));
+    }
+    // the ticked lane stays verifiable and its new entry is a local commit by its own head
+    check_lane(cx, &post.rt, w, "tick", path, Some(op));
+    check_chain(cx, &post.rt, w, len0, "tick", path, Some(op));
+    if let Ok(e) = post.rt.provenance.entry(w, wt(len0)) {
+        let own_head = e.head_key.map(|h| h.worldline_id == w).unwrap_or(false);
+        if e.event_kind != ProvenanceEventKind::LocalCommit || !own_head {
+            cx.viol("tick:entry-not-a-local-commit-of-own-head", path, Some(op), json!({}));
+        }
+    }
+    Some(post)
+}
+
+fn fork_request(
+    strand: StrandId,
+    source: WorldlineId,
+    t: u64,
+    child_wl: WorldlineId,
+    heads: Vec<WriterHeadKey>,
+) -> ForkStrandRequest {
+    ForkStrandRequest {
+        strand_id: strand,
+        source_lane_id: source,
+        fork_tick: wt(t),
+        child_worldline_id: child_wl,
+        writer_heads: heads.into_iter().map(mk_head).collect(),
+        retention_posture: shared_posture(),
+    }
+}
+
+fn relane(mut e: ProvenanceEntry, source: WorldlineId, new_id: WorldlineId) -> ProvenanceEntry {
+    e.worldline_id = new_id;
+    if let Some(h) = e.head_key.as_mut() {
+        if h.worldline_id == source {
+            h.worldline_id = new_id;
+        }
+    }
+    for p in &mut e.parents {
+        if p.worldline_id == source {
+            p.worldline_id = new_id;
+        }
+    }
+    e
+}
+
+fn lane_of(src: u8) -> WorldlineId {
+    if src == 0 {
+        parent()
+    } else {
+        child(src)
+    }
+}
+
+fn do_fork(cx: &Ctx, pre: &St, k: u8, src: u8, t: u64, path: &[Op], op: &Op) -> Option<St> {
+    let r = cx.r;
+    let source = lane_of(src);
+    let mut rt = pre.rt.clone();
+    let req = fork_request(sid(k), source, t, child(k), vec![shead(k)]);
+    let rc: ForkStrandReceipt = match rt.runtime.fork_strand(&mut rt.provenance, req) {
+        Ok(rc) => rc,
+        Err(e) => {
+            r.outcome(&format!("fork:error:{}", err_name2(&e)));
+            if let Some(part) = residue(pre.parts, &rt) {
+                cx.viol(
+                    &format!("fork:failed-fork-left-residue:{part}"),
+                    path,
+                    Some(op),
+                    json!({"err": format!("{e:?}")}),
+                );
+            }
+            // a well-formed request on an existing tick must not fail
+            cx.viol("fork:well-formed-fork-rejected", path, Some(op), json!({"err": format!("{e:?}")}));
+            return None;
+        }
+    };
+    let post = St::of(rt);
+    r.outcome(if t == 0 { "fork:at-tick-0" } else { "fork:at-tick>=1" });
+    if t + 1 < pre.len(source) {
+        r.outcome("fork:at-past-tick(not-the-tip)");
+    }
+    if src != 0 {
+        r.outcome("fork:nested(from-strand-lane)");
+    }
+    let c = child(k);
+    // receipt fields agree with provenance
+    match pre.rt.provenance.entry(source, wt(t)) {
+        Ok(pe) => {
+            let want = ForkBasisRef {
+                source_lane_id: source,
+                fork_tick: wt(t),
+                commit_hash: pe.expected.commit_hash,
+                boundary_hash: pe.expected.state_root,
+                provenance_ref: pe.as_ref(),
+            };
+            if rc.fork_basis_ref != want {
+                cx.viol("fork:receipt-basis-disagrees-with-provenance", path, Some(op), json!({}));
+            }
+        }
+        Err(_) => cx.viol("fork:succeeded-on-missing-tick", path, Some(op), json!({})),
+    }
+    if rc.strand_id != sid(k) || rc.child_worldline_id != c || rc.writer_heads != vec![shead(k)] {
+        cx.viol("fork:receipt-identity-fields-wrong", path, Some(op), json!({}));
+    }
+    match post.rt.runtime.strands().get(&sid(k)) {
+        Some(s) => {
+            if s.fork_basis_ref() != rc.fork_basis_ref
+                || s.child_worldline_id() != c
+                || s.writer_heads() != rc.writer_heads.as_slice()
+                || !s.support_pins().is_empty()
+            {
+                cx.viol("fork:registered-strand-disagrees-with-receipt", path, Some(op), json!({}));
+            }
+        }
+        None => cx.viol("fork:strand-not-registered", path, Some(op), json!({})),
+    }
+    // child history == parent's prefix 0..=t, re-laned, entry by entry
+    let clen = post.len(c);
+    if clen != t + 1 {
+        cx.viol(
+            "fork:child-history-length-is-not-fork-tick+1",
+            path,
+            Some(op),
+            json!({"child_len": clen, "fork_tick": t}),
+        );
+    }
+    for i in 0..clen.min(pre.len(source)) {
+        let want = pre.rt.provenance.entry(source, wt(i)).map(|e| relane(e, source, c));
+        let got = post.rt.provenance.entry(c, wt(i));
+        match (want, got) {
+            (Ok(a), Ok(b)) if a == b => {}
+            _ => {
+                cx.viol(
+                    "fork:child-entry-differs-from-relaned-parent-entry",
+                    path,
+                    Some(op),
+                    json!({"tick": i}),
+                );
+                break;
+            }
+        }
+    }
+    // child frontier == parent's state at the fork coordinate
+    if let (Some(cf), Some(sf)) = (
+        post.rt.runtime.worldlines().get(&c),
+        pre.rt.runtime.worldlines().get(&source),
+    ) {
+        match pre
+            .rt
+            .provenance
+            .replay_worldline_state_at(source, sf.state(), wt(t + 1))
+        {
+            Ok(hist) => {
+                if cf.state().state_root() != hist.state_root() || abs(cf.state()) != abs(&hist) {
+                    cx.viol("fork:child-state-differs-from-parent-at-fork-tick", path, Some(op), json!({}));
+                }
+            }
+            Err(e) => r.machinery_error(&format!("replay source at fork tick: {e:?}")),
+        }
+        if cf.frontier_tick() != wt(t + 1) {
+            cx.viol("fork:child-frontier-tick-wrong", path, Some(op), json!({}));
+        }
+    } else {
+        cx.viol("fork:child-frontier-missing", path, Some(op), json!({}));
+    }
+    check_lane(cx, &post.rt, c, "fork", path, Some(op));
+    // fresh writer heads only
+    for hk in &rc.writer_heads {
+        if hk.worldline_id != c {
+            cx.viol("fork:strand-head-not-on-child-lane", path, Some(op), json!({}));
+        }
+        if pre.rt.runtime.heads().get(hk).is_some() {
+            cx.viol("fork:strand-head-key-existed-before", path, Some(op), json!({}));
+        }
+        if post.rt.runtime.heads().get(hk).is_none() {
+            cx.viol("fork:strand-head-not-registered", path, Some(op), json!({}));
+        }
+    }
+    let new_heads: Vec<WriterHeadKey> = post
+        .rt
+        .runtime
+        .heads()
+        .iter()
+        .map(|(k, _)| *k)
+        .filter(|k| pre.rt.runtime.heads().get(k).is_none())
+        .collect();
+    if new_heads != rc.writer_heads {
+        cx.viol("fork:registered-heads-differ-from-receipt", path, Some(op), json!({}));
+    }
+    for (hk, _) in post.rt.runtime.heads().iter() {
+        if hk.worldline_id == source && pre.rt.runtime.heads().get(hk).is_none() {
+            cx.viol("fork:new-head-on-source-lane", path, Some(op), json!({}));
+        }
+    }
+    // ISOLATION: the fork changes no existing lane and no existing strand
+    for (x, f0) in &pre.wf {
+        if post.wf.get(x) != Some(f0) {
+            cx.viol("isolation:fork-changed-existing-lane", path, Some(op), json!({"lane": wname(*x)}));
+        }
+    }
+    if post.wf.len() != pre.wf.len() + 1 {
+        cx.viol("fork:lane-set-not-extended-by-exactly-the-child", path, Some(op), json!({}));
+    }
+    for j in pre.live(cx.cfg) {
+        let a = format!("{:?}", pre.rt.runtime.strands().get(&sid(j)));
+        let b = format!("{:?}", post.rt.runtime.strands().get(&sid(j)));
+        if a != b {
+            cx.viol("isolation:fork-changed-existing-strand", path, Some(op), json!({}));
+        }
+    }
+    Some(post)
+}
+
+fn dec_name(d: &SettlementDecision) -> String {
+    match d {
+        SettlementDecision::ImportCandidate(c) => match &c.overlap_revalidation {
+            None => "import".into(),
+            Some(_) => "import(revalidated-clean)".into(),
+        },
+        SettlementDecision::ConflictArtifact(c) => format!("conflict:{:?}", c.reason),
+        SettlementDecision::PluralAlternative(_) => "plural".into(),
+    }
+}
+
+struct StrandView {
+    target: WorldlineId,
+    child: WorldlineId,
+    fork_tick: u64,
+}
+
+fn strand_view(rt: &Rt, k: u8) -> Option<StrandView> {
+    let s = rt.runtime.strands().get(&sid(k))?;
+    Some(StrandView {
+        target: s.fork_basis_ref().source_lane_id,
+        child: s.child_worldline_id(),
+        fork_tick: s.fork_basis_ref().fork_tick.as_u64(),
+    })
+}
+
+fn replay_abs(rt: &Rt, w: WorldlineId, t: u64) -> Result<(Abs, H, WorldlineState), String> {
+    let f = rt
+        .runtime
+        .worldlines()
+        .get(&w)
+        .ok_or_else(|| "lane missing".to_string())?;
+    let s = rt
+        .provenance
+        .replay_worldline_state_at(w, f.state(), wt(t))
+        .map_err(|e| format!("{e:?}"))?;
+    Ok((abs(&s), s.state_root(), s))
+}
+
+fn do_settle(cx: &Ctx, pre: &St, k: u8, plural: bool, path: &[Op], op: &Op) -> Option<St> {
+    let r = cx.r;
+    let pol = policy(plural);
+    let plan0 =
+        SettlementService::plan_with_policy(&pre.rt.runtime, &pre.rt.provenance, sid(k), &pol);
+    let mut rt = pre.rt.clone();
+    let res =
+        SettlementService::settle_with_policy(&mut rt.runtime, &mut rt.provenance, sid(k), &pol);
+    match res {
+        Err(e) => {
+            r.outcome(&format!("settle:error:{}", err_name2(&e)));
+            // SETTLE is all-or-nothing
+            if let Some(part) = residue(pre.parts, &rt) {
+                cx.viol(
+                    &format!("settle:failed-settle-left-residue:{part}"),
+                    path,
+                    Some(op),
+                    json!({"err": format!("{e:?}")}),
+                );
+            } else {
+                r.counter("natural_settle_failures_rolled_back", 1);
+                if matches!(e, warp_core::SettlementError::BraidShell(_)) {
+                    r.counter("late_shell_failures_rolled_back", 1);
+                }
+            }
+            None
+        }
+        Ok(res) => {
+            let plan0 = match plan0 {
+                Ok(p) => p,
+                Err(e) => {
+                    cx.viol("settle:succeeded-although-plan-fails", path, Some(op), json!({"err": format!("{e:?}")}));
+                    return None;
+                }
+            };
+            if res.plan.decisions.is_empty() {
+                r.outcome("settle:empty-suffix(no-op)");
+                if residue(pre.parts, &rt).is_some()
+                    || res.braid_shell.is_some()
+                    || !res.appended_imports.is_empty()
+                {
+                    cx.viol("settle:empty-settlement-changed-state", path, Some(op), json!({}));
+                }
+                return None;
+            }
+            let post = St::of(rt);
+            check_settle(cx, pre, &post, k, plural, &plan0, &res, path, op);
+            Some(post)
+        }
+    }
+}
+
+#[allow(clippy::too_many_arguments)]
+fn check_settle(
+    cx: &Ctx,
+    pre: &St,
+    post: &St,
+    k: u8,
+    plural: bool,
+    plan0: &SettlementPlan,
+    res: &SettlementResult,
+    path: &[Op],
+    op: &Op,
+) {
+    let r = cx.r;
+    let o = Some(op);
+    let Some(sv) = strand_view(&pre.rt, k) else {
+        cx.viol("settle:ok-for-unknown-strand", path, o, json!({}));
+        return;
+    };
+    let (target, c, ft) = (sv.target, sv.child, sv.fork_tick);
+    let pol = policy(plural);
+    // PLAN then execution: the executed plan is the pure plan of the pre-state.
+    if res.plan != *plan0 {
+        cx.viol("settle:executed-plan-differs-from-pure-plan", path, o, json!({}));
+    }
+    if res.plan.target_worldline != target || res.plan.strand_id != sid(k) {
+        cx.viol("settle:plan-identity-fields-wrong", path, o, json!({}));
+    }
+    let decisions = &res.plan.decisions;
+    let n = decisions.len() as u64;
+    let pre_len = pre.len(target);
+    let post_len = post.len(target);
+    let child_len = pre.len(c);
+    let s_from = ft + 1;
+    if post_len != pre_len + n {
+        cx.viol(
+            "settle:history-growth-differs-from-decision-count",
+            path,
+            o,
+            json!({"pre": pre_len, "post": post_len, "decisions": n}),
+        );
+        return;
+    }
+    if child_len < s_from || n != child_len - s_from {
+        cx.viol(
+            "settle:decision-count-differs-from-suffix-length",
+            path,
+            o,
+            json!({"suffix": child_len.saturating_sub(s_from), "decisions": n}),
+        );
+        return;
+    }
+    // ISOLATION under settlement: only the target lane changes; the registry does not.
+    for (x, f0) in &pre.wf {
+        if *x != target && post.wf.get(x) != Some(f0) {
+            cx.viol("isolation:settle-changed-non-target-lane", path, o, json!({"lane": wname(*x)}));
+        }
+    }
+    if post.wf.len() != pre.wf.len() {
+        cx.viol("isolation:settle-changed-lane-set", path, o, json!({}));
+    }
+    if post.reg != pre.reg {
+        cx.viol("isolation:settle-changed-strand-registry", path, o, json!({}));
+    }
+    // the pre-existing history of the target is untouched
+    for t in 0..pre_len {
+        if pre.rt.provenance.entry(target, wt(t)).ok() != post.rt.provenance.entry(target, wt(t)).ok() {
+            cx.viol("settle:rewrote-existing-target-history", path, o, json!({"tick": t}));
+            break;
+        }
+    }
+
+    // ---- abstract histories -------------------------------------------------------------------
+    // strand suffix diffs d[j] : state before entry s_from+j -> state after it
+    let mut strand_abs = Vec::new();
+    for t in s_from..=child_len {
+        match replay_abs(&pre.rt, c, t) {
+            Ok((a, _, _)) => strand_abs.push(a),
+            Err(e) => {
+                r.machinery_error(&format!("replay strand lane: {e}"));
+                return;
+            }
+        }
+    }
+    let d: Vec<Diff> = strand_abs.windows(2).map(|w| diff(&w[0], &w[1])).collect();
+    // parent movement since the fork coordinate (stepwise and net), from replayed states
+    let mut par_abs = Vec::new();
+    for t in s_from..=pre_len {
+        match replay_abs(&pre.rt, target, t) {
+            Ok((a, _, _)) => par_abs.push(a),
+            Err(e) => {
+                r.machinery_error(&format!("replay target lane: {e}"));
+                return;
+            }
+        }
+    }
+    let Some(pre_abs) = par_abs.last().cloned() else {
+        cx.viol("settle:target-shorter-than-fork-coordinate", path, o, json!({}));
+        return;
+    };
+    let pre_frontier = pre.rt.runtime.worldlines().get(&target).map(|f| f.state().clone());
+    let Some(pre_frontier) = pre_frontier else { return };
+    if abs(&pre_frontier) != pre_abs {
+        cx.viol("settle:pre-state-frontier-differs-from-replay", path, o, json!({}));
+    }
+    let moved_net: BTreeSet<Loc> = diff(&par_abs[0], &pre_abs).into_keys().collect();
+    let mut moved_step: BTreeSet<Loc> = BTreeSet::new();
+    for w in par_abs.windows(2) {
+        moved_step.extend(diff(&w[0], &w[1]).into_keys());
+    }
+    // declared parent writes: used ONLY to weaken the must-import obligation (a declared write
+    // that did not change the value still counts as "the parent moved there")
+    let mut declared: BTreeSet<Loc> = BTreeSet::new();
+    for t in s_from..pre_len {
+        if let Ok(e) = pre.rt.provenance.entry(target, wt(t)) {
+            if let Some(p) = &e.patch {
+                declared.extend(p.out_slots.iter().filter_map(slot_loc));
+            }
+        }
+    }
+    let parent_moved = pre_len > s_from;
+
+    // ---- appended entries ---------------------------------------------------------------------
+    let mut want_imports = Vec::new();
+    let mut want_conflicts = Vec::new();
+    let mut want_plurals = Vec::new();
+    let mut plural_ids = Vec::new();
+    let mut expected = pre_abs.clone();
+    let mut sim = pre_frontier.clone();
+    let mut blocked = false;
+    let mut n_import = 0u64;
+    let mut n_conflict = 0u64;
+    let mut n_plural = 0u64;
+    let mut n_blocked = 0u64;
+    let mut w_overlap_any = false;
+    let mut r_overlap_any = false;
+    let mut names = Vec::new();
+    for (j, dec) in decisions.iter().enumerate() {
+        let t_new = pre_len + j as u64;
+        let src_tick = s_from + j as u64;
+        names.push(dec_name(dec));
+        let Ok(se) = pre.rt.provenance.entry(c, wt(src_tick)) else {
+            r.machinery_error("strand suffix entry missing");
+            return;
+        };
+        let Ok(ne) = post.rt.provenance.entry(target, wt(t_new)) else {
+            cx.viol("settle:appended-entry-missing", path, o, json!({"tick": t_new}));
+            return;
+        };
+        let dj = &d[j];
+        let is_import = matches!(dec, SettlementDecision::ImportCandidate(_));
+        // decision j is about suffix entry j
+        let dref = match dec {
+            SettlementDecision::ImportCandidate(x) => x.source_ref,
+            SettlementDecision::ConflictArtifact(x) => x.source_ref,
+            SettlementDecision::PluralAlternative(x) => x.source_ref,
+        };
+        if dref != se.as_ref() {
+            cx.viol("settle:decision-order-differs-from-suffix-order", path, o, json!({"index": j}));
+        }
+        // appended entry kind agrees with the decision
+        let kind_ok = match (dec, &ne.event_kind) {
+            (
+                SettlementDecision::ImportCandidate(_),
+                ProvenanceEventKind::MergeImport {
+                    source_worldline,
+                    source_worldline_tick,
+                    ..
+                },
+            ) => *source_worldline == c && *source_worldline_tick == wt(src_tick),
+            (
+                SettlementDecision::ConflictArtifact(x),
+                ProvenanceEventKind::ConflictArtifact { artifact_id },
+            ) => *artifact_id == x.artifact_id,
+            (
+                SettlementDecision::PluralAlternative(x),
+                ProvenanceEventKind::PluralArtifact { plural_id, .. },
+            ) => *plural_id == x.plural_id,
+            _ => false,
+        };
+        if !kind_ok {
+            cx.viol(
+                "settle:appended-entry-kind-differs-from-decision",
+                path,
+                o,
+                json!({"index": j, "decision": dec_name(dec), "entry": err_name(&ne.event_kind)}),
+            );
+        }
+        match dec {
+            SettlementDecision::ImportCandidate(_) => want_imports.push(ne.as_ref()),
+            SettlementDecision::ConflictArtifact(_) => want_conflicts.push(ne.as_ref()),
+            SettlementDecision::PluralAlternative(x) => {
+                want_plurals.push(ne.as_ref());
+                plural_ids.push(x.plural_id);
+            }
+        }
+        // (iv) every appended entry chains
+        check_chain(cx, &post.rt, target, t_new, "settle", path, o);
+
+        // ---- the statement's conditions on this suffix entry ----
+        let written: BTreeSet<&Loc> = dj.keys().collect();
+        let w_overlap = written.iter().any(|l| moved_step.contains(*l));
+        let reads: BTreeSet<Loc> = se
+            .patch
+            .as_ref()
+            .map(|p| p.in_slots.iter().filter_map(slot_loc).collect())
+            .unwrap_or_default();
+        let r_overlap = reads.iter().any(|l| moved_step.contains(l) && !dj.contains_key(l));
+        w_overlap_any |= w_overlap;
+        r_overlap_any |= r_overlap;
+        let mut cand = sim.clone();
+        let applies = se
+            .patch
+            .as_ref()
+            .map(|p| p.apply_to_worldline_state(&mut cand).is_ok())
+            .unwrap_or(false);
+        let disjoint = !written
+            .iter()
+            .any(|l| moved_step.contains(*l) || declared.contains(*l));
+        let local = se.event_kind == ProvenanceEventKind::LocalCommit;
+        if !local {
+            r.outcome("settle:suffix-entry-not-a-local-commit(v1-unsupported)");
+        }
+        if !disjoint && !w_overlap {
+            r.outcome("settle:declared-parent-write-without-value-change(obligation-waived)");
+        }
+        // (iii) must import
+        if !blocked && applies && disjoint && local && !is_import {
+            cx.viol(
+                "settle:clean-disjoint-entry-not-imported",
+                path,
+                o,
+                json!({"index": j, "decision": dec_name(dec), "policy_plural": plural}),
+            );
+        }
+        // imports never follow a retained artifact (the strand's later patches were recorded on
+        // top of the retained entry; ConflictReason::PluralUpstream documents the law)
+        if blocked && is_import {
+            cx.viol(
+                "settle:entry-imported-after-retained-artifact",
+                path,
+                o,
+                json!({"index": j, "decisions": names.clone()}),
+            );
+        }
+        // (v) an entry that would change a slot the parent changed is retained, not imported
+        let overwrites: Vec<String> = dj
+            .iter()
+            .filter(|(l, v)| moved_net.contains(*l) && **v != pre_abs.get(*l).cloned())
+            .map(|(l, _)| l.short())
+            .collect();
+        if !overwrites.is_empty() && is_import {
+            cx.viol(
+                "settle:entry-changing-parent-moved-slot-was-imported",
+                path,
+                o,
+                json!({"index": j, "slots": overwrites}),
+            );
+        }
+        if matches!(dec, SettlementDecision::PluralAlternative(_)) && !plural {
+            cx.viol("settle:plural-retained-under-refusing-policy", path, o, json!({"index": j}));
+        }
+        // replayed target state after this appended entry
+        let after = match replay_abs(&post.rt, target, t_new + 1) {
+            Ok(x) => x,
+            Err(e) => {
+                cx.viol(
+                    "settle:target-not-replayable-after-settlement",
+                    path,
+                    o,
+                    json!({"tick": t_new, "err": e}),
+                );
+                return;
+            }
+        };
+        if after.1 != ne.expected.state_root {
+            cx.viol("settle:appended-entry-root-differs-from-replay", path, o, json!({"index": j}));
+        }
+        if is_import {
+            n_import += 1;
+            // (ii) the parent holds the strand's post-entry value on every slot the entry wrote
+            for (l, v) in dj {
+                if after.0.get(l).cloned() != *v {
+                    cx.viol(
+                        "settle:imported-entry-value-not-taken-by-parent",
+                        path,
+                        o,
+                        json!({"index": j, "slot": l.short()}),
+                    );
+                    break;
+                }
+            }
+            apply_diff(&mut expected, dj);
+            if applies {
+                sim = cand;
+            } else {
+                cx.viol("settle:imported-entry-does-not-apply-to-parent", path, o, json!({"index": j}));
+            }
+        } else {
+            if blocked {
+                n_blocked += 1;
+            }
+            blocked = true;
+            match dec {
+                SettlementDecision::ConflictArtifact(_) => n_conflict += 1,
+                _ => n_plural += 1,
+            }
+        }
+        // frame: nothing else changes
+        if after.0 != expected {
+            let dd: Vec<String> = diff(&expected, &after.0).keys().map(Loc::short).collect();
+            cx.viol(
+                if is_import {
+                    "settle:import-changed-slots-the-entry-did-not-write"
+                } else {
+                    "settle:retained-artifact-changed-parent-state"
+                },
+                path,
+                o,
+                json!({"index": j, "slots": dd}),
+            );
+            expected = after.0.clone();
+        }
+    }
+    // result lists agree with history, in order
+    if res.appended_imports != want_imports
+        || res.appended_conflicts != want_conflicts
+        || res.appended_plurals != want_plurals
+    {
+        cx.viol("settle:result-refs-differ-from-appended-history", path, o, json!({}));
+    }
+    // (i) never-overwrite
+    let post_frontier = post.rt.runtime.worldlines().get(&target).map(|f| f.state().clone());
+    let Some(post_frontier) = post_frontier else { return };
+    let post_abs = abs(&post_frontier);
+    for l in &moved_net {
+        if post_abs.get(l) != pre_abs.get(l) {
+            cx.viol(
+                "settle:parent-moved-slot-overwritten",
+                path,
+                o,
+                json!({"slot": l.short(), "before": pre_abs.get(l), "after": post_abs.get(l), "decisions": names.clone()}),
+            );
+            break;
+        }
+    }
+    // (iv) the parent stays verifiable from its own history
+    check_lane(cx, &post.rt, target, "settle", path, o);
+    if post_abs != expected {
+        cx.viol("settle:frontier-differs-from-replayed-history", path, o, json!({}));
+    }
+    // parent unmoved and everything imported ⇒ the parent now *is* the strand
+    if !parent_moved && n_import == n {
+        let strand_root = pre.rt.runtime.worldlines().get(&c).map(|f| f.state().state_root());
+        if Some(post_frontier.state_root()) != strand_root {
+            cx.viol("settle:full-import-on-unmoved-parent-differs-from-strand", path, o, json!({}));
+        }
+    }
+    // (v') the retained shell describes the finished act
+    match res.braid_shell {
+        None => cx.viol("settle:non-empty-settlement-retained-no-shell", path, o, json!({})),
+        Some(dg) => match post.rt.provenance.braid_shell(&dg) {
+            None => cx.viol("settle:reported-shell-not-retained", path, o, json!({})),
+            Some(sh) => {
+                let ok = match &sh.outcome {
+                    BraidShellOutcome::Plural { alternative_ids } => {
+                        n_plural > 0 && *alternative_ids == plural_ids
+                    }
+                    BraidShellOutcome::Conflict { reason_codes } => {
+                        n_plural == 0 && n_conflict > 0 && reason_codes.len() as u64 == n_conflict
+                    }
+                    BraidShellOutcome::Derived { result_refs, .. } => {
+                        n_plural == 0 && n_conflict == 0 && *result_refs == res.appended_imports
+                    }
+                    BraidShellOutcome::Obstruction { .. } => false,
+                };
+                if !ok {
+                    cx.viol(
+                        "settle:retained-shell-does-not-describe-the-appended-entries",
+                        path,
+                        o,
+                        json!({"outcome": err_name(&sh.outcome), "decisions": names.clone()}),
+                    );
+                }
+                if sh.worldline_id != target
+                    || sh.basis != res.plan.target_base_ref
+                    || sh.policy_id != pol.policy_id
+                    || sh.members.len() != 1
+                {
+                    cx.viol("settle:retained-shell-coordinates-wrong", path, o, json!({}));
+                }
+            }
+        },
+    }
+    let shells_pre = pre.rt.provenance.braid_shells().count();
+    let shells_post = post.rt.provenance.braid_shells().count();
+    if shells_post > shells_pre + 1 || shells_post < shells_pre {
+        cx.viol("settle:shell-count-changed-by-other-than-one", path, o, json!({}));
+    }
+
+    // ---- evidence -----------------------------------------------------------------------------
+    let movement = if !parent_moved {
+        "unmoved"
+    } else if w_overlap_any {
+        "write-overlap"
+    } else if r_overlap_any {
+        "read-overlap"
+    } else {
+        "disjoint"
+    };
+    r.outcome(&format!("settle:parent-{movement}"));
+    r.outcome(&format!(
+        "settle:{}:{}",
+        if plural { "allow-plural" } else { "default" },
+        if n_plural > 0 {
+            "plural-retained"
+        } else if n_conflict > 0 {
+            "conflict-retained"
+        } else {
+            "all-imported"
+        }
+    ));
+    for nm in &names {
+        r.outcome(&format!("decision:{nm}"));
+    }
+    if n_import > 0 {
+        r.counter("settlements_with_import", 1);
+    }
+    if n_conflict > 0 {
+        r.counter("settlements_with_conflict", 1);
+    }
+    if n_plural > 0 {
+        r.counter("settlements_with_plural", 1);
+    }
+    if n_blocked > 0 {
+        r.counter("settlements_with_entry_blocked_behind_retained", 1);
+    }
+    if n_import > 0 && (n_conflict + n_plural) > 0 {
+        r.counter("settlements_import_then_retained", 1);
+    }
+    if parent_moved && movement == "disjoint" && n_import > 0 {
+        r.counter("imports_on_disjointly_moved_parent", 1);
+    }
+    if movement == "read-overlap" && n_import > 0 {
+        r.counter("imports_on_read_overlapping_parent", 1);
+    }
+    if target != parent() {
+        r.counter("settlements_into_strand_lane", 1);
+    }
+    if pre
+        .rt
+        .runtime
+        .strands()
+        .get(&sid(k))
+        .map(|s| !s.support_pins().is_empty())
+        .unwrap_or(false)
+    {
+        r.counter("settlements_of_pinned_strand", 1);
+    }
+    let key = format!("{}|{:?}", cx.cfg.name, cx.full_path(path, o));
+    r.nontrivial(key.as_bytes());
+    r.sample(json!({
+        "cfg": cx.cfg.name,
+        "path": cx.full_path(path, o),
+        "policy": if plural {"allow-plural"} else {"default"},
+        "parent_movement": movement,
+        "decisions": names,
+        "parent_moved_slots": moved_net.iter().map(Loc::short).collect::<Vec<_>>(),
+    }));
+}
+
+fn do_pin(cx: &Ctx, pre: &St, a: u8, b: u8, unpin: bool, path: &[Op], op: &Op) -> Option<St> {
+    let r = cx.r;
+    let mut rt = pre.rt.clone();
+    let tick = pre.len(child(b)).saturating_sub(1);
+    let res = if unpin {
+        rt.runtime.unpin_support(sid(a), sid(b))
+    } else {
+        rt.runtime.pin_support(&rt.provenance, sid(a), sid(b), wt(tick))
+    };
+    match res {
+        Err(e) => {
+            r.outcome(&format!("pin:error:{}", err_name2(&e)));
+            if let Some(part) = residue(pre.parts, &rt) {
+                cx.viol(&format!("pin:failed-pin-left-residue:{part}"), path, Some(op), json!({}));
+            }
+            None
+        }
+        Ok(pin) => {
+            let post = St::of(rt);
+            r.outcome(if unpin { "pin:unpinned" } else { "pin:pinned" });
+            // pins are read-only support: no lane changes, provenance untouched
+            for (x, f0) in &pre.wf {
+                if post.wf.get(x) != Some(f0) {
+                    cx.viol("isolation:pin-changed-lane", path, Some(op), json!({"lane": wname(*x)}));
+                }
+            }
+            if pre.parts.1 != post.parts.1 {
+                cx.viol("isolation:pin-changed-provenance", path, Some(op), json!({}));
+            }
+            // the pin agrees with provenance
+            let want_root = pre
+                .rt
+                .provenance
+                .entry(child(b), wt(tick))
+                .map(|e| e.expected.state_root)
+                .ok();
+            if pin.strand_id != sid(b)
+                || pin.worldline_id != child(b)
+                || (!unpin && (pin.pinned_tick != wt(tick) || Some(pin.state_hash) != want_root))
+            {
+                cx.viol("pin:pin-disagrees-with-provenance", path, Some(op), json!({}));
+            }
+            let has = post
+                .rt
+                .runtime
+                .strands()
+                .get(&sid(a))
+                .map(|s| s.support_pins().iter().any(|p| p.strand_id == sid(b)))
+                .unwrap_or(false);
+            if has == unpin {
+                cx.viol("pin:registry-not-updated", path, Some(op), json!({}));
+            }
+            // the pinned target's strand record and fork basis are untouched
+            let tb = format!("{:?}", pre.rt.runtime.strands().get(&sid(b)));
+            let ta = format!("{:?}", post.rt.runtime.strands().get(&sid(b)));
+            if tb != ta {
+                cx.viol("pin:changed-support-target-strand", path, Some(op), json!({}));
+            }
+            Some(post)
+        }
+    }
+}
+
+fn step(cx: &Ctx, pre: &St, op: &Op, path: &[Op]) -> Option<St> {
+    cx.r.eval(1);
+    match op {
+        Op::PTick(i) => do_tick(cx, pre, parent(), &cx.cfg.parent[*i as usize], path, op),
+        Op::STick(k, j) => do_tick(cx, pre, child(*k), &cx.cfg.strand[*j as usize], path, op),
+        Op::Fork { k, src, t } => do_fork(cx, pre, *k, *src, *t, path, op),
+        Op::Settle(k, p) => do_settle(cx, pre, *k, *p, path, op),
+        Op::Pin(a, b) => do_pin(cx, pre, *a, *b, false, path, op),
+        Op::Unpin(a, b) => do_pin(cx, pre, *a, *b, true, path, op),
+    }
+}
+
+fn menu(cfg: &Cfg, st: &St) -> Vec<Op> {
+    let mut v = Vec::new();
+    for i in 0..cfg.parent.len() {
+        v.push(Op::PTick(i as u8));
+    }
+    let live = st.live(cfg);
+    let next = (1..=cfg.max_strands).find(|k| !live.contains(k));
+    if let Some(k) = next {
+        for t in 0..st.len(parent()) {
+            v.push(Op::Fork { k, src: 0, t });
+        }
+        if cfg.nested {
+            for s in &live {
+                for t in 0..st.len(child(*s)) {
+                    v.push(Op::Fork { k, src: *s, t });
                 }
             }
         }
-        out.push(b[i] as char);
-        i += 1;
     }
-    out
+    for k in &live {
+        for j in 0..cfg.strand.len() {
+            v.push(Op::STick(*k, j as u8));
+        }
+        v.push(Op::Settle(*k, false));
+        v.push(Op::Settle(*k, true));
+    }
+    if cfg.pins {
+        for a in &live {
+            for b in &live {
+                if a == b {
+                    continue;
+                }
+                let pinned = st
+                    .rt
+                    .runtime
+                    .strands()
+                    .get(&sid(*a))
+                    .map(|s| s.support_pins().iter().any(|p| p.strand_id == sid(*b)))
+                    .unwrap_or(false);
+                v.push(if pinned { Op::Unpin(*a, *b) } else { Op::Pin(*a, *b) });
+            }
+        }
+    }
+    v
 }
-fn show(tag: &str, e: &ProvenanceEntry) {
-    let p = e.patch.as_ref().unwrap();
-    println!("{tag} tick={:?} gt={:?} kind={} head={} parents={}", e.worldline_tick, e.commit_global_tick, short(&format!("{:?}", e.event_kind)), short(&format!("{:?}", e.head_key)), short(&format!("{:?}", e.parents)));
-    println!("   ops={}", short(&format!("{:?}", p.ops)));
-    println!("   in={}", short(&format!("{:?}", p.in_slots)));
-    println!("   out={}", short(&format!("{:?}", p.out_slots)));
-    println!("   outputs={} atom_writes={}", short(&format!("{:?}", e.outputs)), short(&format!("{:?}", e.atom_writes)));
+
+// ---------------------------------------------------------------------------------------------
+// probes (do not change the state)
+// ---------------------------------------------------------------------------------------------
+
+fn probes(cx: &Ctx, st: &St, path: &[Op]) {
+    let r = cx.r;
+    let live = st.live(cx.cfg);
+    let mut ndecs: BTreeMap<(u8, bool), usize> = BTreeMap::new();
+    // PLAN is pure and deterministic
+    for &k in &live {
+        for plural in [false, true] {
+            let pol = policy(plural);
+            let p1 = SettlementService::plan_with_policy(&st.rt.runtime, &st.rt.provenance, sid(k), &pol);
+            let p2 = SettlementService::plan_with_policy(&st.rt.runtime, &st.rt.provenance, sid(k), &pol);
+            r.eval(2);
+            let same = match (&p1, &p2) {
+                (Ok(a), Ok(b)) => a == b,
+                (Err(a), Err(b)) => format!("{a:?}") == format!("{b:?}"),
+                _ => false,
+            };
+            if !same {
+                cx.viol("plan:two-plans-of-the-same-state-differ", path, None, json!({"strand": k, "plural": plural}));
+            }
+            match &p1 {
+                Ok(p) => {
+                    ndecs.insert((k, plural), p.decisions.len());
+                    r.outcome(&format!("plan:ok:{}-decisions", p.decisions.len().min(3)))
+                }
+                Err(e) => r.outcome(&format!("plan:error:{}", err_name2(e))),
+            }
+            if !plural {
+                // the default policy is the policy of the policy-less entry points
+                let p3 = SettlementService::plan(&st.rt.runtime, &st.rt.provenance, sid(k));
+                let same = match (&p1, &p3) {
+                    (Ok(a), Ok(b)) => a == b,
+                    (Err(a), Err(b)) => format!("{a:?}") == format!("{b:?}"),
+                    _ => false,
+                };
+                if !same {
+                    cx.viol("plan:default-policy-plan-differs-from-plan()", path, None, json!({}));
+                }
+            }
+        }
+        let _ = SettlementService::compare(&st.rt.runtime, &st.rt.provenance, sid(k));
+    }
+    if !live.is_empty() && parts(&st.rt) != st.parts {
+        cx.viol("plan:planning-changed-the-state", path, None, json!({}));
+    }
+    // Probes that strike after >=1 appended entry run on every state; the trivial ones (failure
+    // before the first append, malformed forks/pins) on states up to `probe_depth`.
+    let shallow = path.len() <= cx.cfg.probe_depth;
+    let mut inj_rt_hash: [Option<H>; 3] = [None; 3];
+    // SETTLE with an injected failure is all-or-nothing
+    for &k in &live {
+        let Some(sv) = strand_view(&st.rt, k) else { continue };
+        for plural in [false, true] {
+            let pol = policy(plural);
+            for inj in 0..4u8 {
+                let nd = ndecs.get(&(k, plural)).copied().unwrap_or(0);
+                let effective = (inj == 1 && nd > 1) || (inj == 2 && nd > 2);
+                if !(effective || shallow) {
+                    continue;
+                }
+                let mut rt = st.rt.clone();
+                let name = match inj {
+                    0 => {
+                        hooks::coordinator::set_global_tick(&mut rt.runtime, u64::MAX);
+                        "global-tick-overflow-at-entry-0"
+                    }
+                    1 => {
+                        hooks::coordinator::set_global_tick(&mut rt.runtime, u64::MAX - 1);
+                        "global-tick-overflow-at-entry-1"
+                    }
+                    2 => {
+                        hooks::coordinator::set_global_tick(&mut rt.runtime, u64::MAX - 2);
+                        "global-tick-overflow-at-entry-2"
+                    }
+                    _ => {
+                        hooks::coordinator::set_frontier_tick(&mut rt.runtime, &sv.target, u64::MAX);
+                        "target-frontier-tick-drift"
+                    }
+                };
+                let before: Parts = if inj < 3 {
+                    (
+                        *inj_rt_hash[inj as usize].get_or_insert_with(|| dbg_hash(&rt.runtime)),
+                        st.parts.1,
+                    )
+                } else {
+                    (dbg_hash(&rt.runtime), st.parts.1)
+                };
+                let res = SettlementService::settle_with_policy(
+                    &mut rt.runtime,
+                    &mut rt.provenance,
+                    sid(k),
+                    &pol,
+                );
+                r.eval(1);
+                match res {
+                    Err(e) => {
+                        r.outcome(&format!("inject:{name}:{}", err_name2(&e)));
+                        match residue(before, &rt) {
+                            Some(part) => cx.viol(
+                                &format!("settle:failed-settle-left-residue:{part}"),
+                                path,
+                                None,
+                                json!({"inject": name, "strand": k, "plural": plural, "err": format!("{e:?}")}),
+                            ),
+                            None => {
+                                r.counter("injected_failures_rolled_back", 1);
+                                if inj == 1 || inj == 2 {
+                                    // ≥1 entry had been appended to runtime and provenance
+                                    r.counter("injected_failures_after_partial_append_rolled_back", 1);
+                                    r.nontrivial(
+                                        format!("{}|inj{inj}|{k}|{plural}|{:?}", cx.cfg.name, path_str(path, None))
+                                            .as_bytes(),
+                                    );
+                                }
+                            }
+                        }
+                    }
+                    Ok(_) => r.outcome(&format!("inject:{name}:no-failure(suffix-too-short)")),
+                }
+            }
+        }
+    }
+    if !shallow {
+        return;
+    }
+    // malformed forks fail and leave no residue
+    let plen = st.len(parent());
+    let fresh = make_strand_id("fresh");
+    let fresh_wl = wl(40);
+    let fresh_head = WriterHeadKey {
+        worldline_id: fresh_wl,
+        head_id: make_head_id("fh"),
+    };
+    let mut bad: Vec<(&str, ForkStrandRequest)> = vec![
+        (
+            "tick-beyond-tip",
+            fork_request(fresh, parent(), plen, fresh_wl, vec![fresh_head]),
+        ),
+        (
+            "child-equals-source",
+            fork_request(
+                fresh,
+                parent(),
+                0,
+                parent(),
+                vec![WriterHeadKey {
+                    worldline_id: parent(),
+                    head_id: make_head_id("fh"),
+                }],
+            ),
+        ),
+        (
+            "head-on-source-lane",
+            fork_request(
+                fresh,
+                parent(),
+                0,
+                fresh_wl,
+                vec![WriterHeadKey {
+                    worldline_id: parent(),
+                    head_id: make_head_id("fh"),
+                }],
+            ),
+        ),
+        (
+            "source-head-key-reused",
+            fork_request(fresh, parent(), 0, fresh_wl, vec![phead()]),
+        ),
+        ("no-writer-heads", fork_request(fresh, parent(), 0, fresh_wl, vec![])),
+        (
+            "unknown-source-lane",
+            fork_request(fresh, wl(99), 0, fresh_wl, vec![fresh_head]),
+        ),
+    ];
+    if let Some(&k) = live.first() {
+        bad.push((
+            "strand-id-taken",
+            fork_request(sid(k), parent(), 0, fresh_wl, vec![fresh_head]),
+        ));
+        bad.push((
+            "child-lane-taken",
+            fork_request(fresh, parent(), 0, child(k), vec![shead(k)]),
+        ));
+        bad.push((
+            "head-on-other-strand-lane",
+            fork_request(
+                fresh,
+                parent(),
+                0,
+                fresh_wl,
+                vec![WriterHeadKey {
+                    worldline_id: child(k),
+                    head_id: make_head_id("fh"),
+                }],
+            ),
+        ));
+    }
+    for (name, req) in bad {
+        let mut rt = st.rt.clone();
+        r.eval(1);
+        match rt.runtime.fork_strand(&mut rt.provenance, req) {
+            Ok(_) => cx.viol(&format!("fork:malformed-fork-accepted:{name}"), path, None, json!({})),
+            Err(e) => {
+                r.outcome(&format!("fork-probe:{name}:{}", err_name2(&e)));
+                match residue(st.parts, &rt) {
+                    Some(part) => cx.viol(
+                        &format!("fork:failed-fork-left-residue:{part}"),
+                        path,
+                        None,
+                        json!({"probe": name, "err": format!("{e:?}")}),
+                    ),
+                    None => r.counter("failed_forks_rolled_back", 1),
+                }
+            }
+        }
+    }
+    // malformed pins
+    if cx.cfg.pins && live.len() >= 2 {
+        let (a, b) = (live[0], live[1]);
+        let cases: Vec<(&str, StrandId, StrandId, u64)> = vec![
+            ("self-pin", sid(a), sid(a), 0),
+            ("tick-unavailable", sid(a), sid(b), st.len(child(b)) + 3),
+            ("unknown-target", sid(a), make_strand_id("nope"), 0),
+        ];
+        for (name, x, y, t) in cases {
+            let mut rt = st.rt.clone();
+            match rt.runtime.pin_support(&rt.provenance, x, y, wt(t)) {
+                Ok(_) => cx.viol(&format!("pin:malformed-pin-accepted:{name}"), path, None, json!({})),
+                Err(e) => {
+                    r.outcome(&format!("pin-probe:{name}:{}", err_name2(&e)));
+                    if residue(st.parts, &rt).is_some() {
+                        cx.viol("pin:failed-pin-left-residue", path, None, json!({"probe": name}));
+                    }
+                }
+            }
+        }
+    }
+}
+
+// ---------------------------------------------------------------------------------------------
+// driver
+// ---------------------------------------------------------------------------------------------
+
+fn run_cfg(r: &Report, cfg: &Cfg, budget_frac: f64) {
+    let cx = Ctx { r, cfg, replaying: false };
+    let root = match root_state() {
+        Ok(s) => s,
+        Err(e) => {
+            r.machinery_error(&e);
+            return;
+        }
+    };
+    let root = {
+        let pcx = Ctx { r, cfg, replaying: true };
+        let mut st = root;
+        let mut done: Vec<Op> = Vec::new();
+        for op in &cfg.prefix {
+            match step(&pcx, &st, op, &done) {
+                Some(n) => st = n,
+                None => {
+                    r.machinery_error(&format!("cfg {}: prefix op {} did not apply", cfg.name, op.enc()));
+                    return;
+                }
+            }
+            done.push(op.clone());
+        }
+        st
+    };
+    let t0 = std::time::Instant::now();
+    let depth = cfg.depth;
+    let stats = mc::bfs::bfs(
+        Sh::new(root),
+        depth + 1,
+        |s: &Sh| s.with(|s| s.fp.to_vec()),
+        |s: &Sh, path: &[Op]| {
+            s.with(|s| {
+                probes(&cx, s, path);
+                if path.len() >= depth {
+                    Vec::new()
+                } else {
+                    menu(cfg, s)
+                }
+            })
+        },
+        |s: &Sh, op: &Op, path: &[Op]| s.with(|s| step(&cx, s, op, path)).map(Sh::new),
+        |_s: &Sh, _p: &[Op]| {},
+        || r.over_budget_frac(budget_frac),
+    );
+    r.add_states(stats.states);
+    r.add_transitions(stats.transitions);
+    r.add_traces(stats.paths);
+    if stats.capped {
+        r.cap_hit(&format!(
+            "cfg {}: wall cap during BFS (states per depth so far {:?}, target depth {})",
+            cfg.name, stats.per_depth, depth
+        ));
+    }
+    r.note(
+        &format!("bfs_{}", cfg.name),
+        json!({
+            "depth": depth, "states": stats.states, "transitions": stats.transitions,
+            "per_depth": stats.per_depth, "capped": stats.capped,
+            "wall_s": t0.elapsed().as_secs_f64(),
+            "parent_intents": cfg.parent.len(), "strand_intents": cfg.strand.len(),
+            "max_strands": cfg.max_strands, "pins": cfg.pins, "nested": cfg.nested,
+        }),
+    );
+    println!(
+        "[C15] cfg {:<10} depth {} states {} transitions {} per-depth {:?} {:.1}s{}",
+        cfg.name,
+        depth,
+        stats.states,
+        stats.transitions,
+        stats.per_depth,
+        t0.elapsed().as_secs_f64(),
+        if stats.capped { " CAPPED" } else { "" }
+    );
+}
+
+/// Forking a lane that has no history yet must fail cleanly (there is no tick to anchor on).
+fn empty_parent_probe(r: &Report, cfg: &Cfg) {
+    let cx = Ctx { r, cfg, replaying: false };
+    let rt0 = empty_rt();
+    let mut rt = rt0.clone();
+    r.eval(1);
+    match rt
+        .runtime
+        .fork_strand(&mut rt.provenance, fork_request(sid(1), parent(), 0, child(1), vec![shead(1)]))
+    {
+        Ok(_) => cx.viol("fork:fork-of-empty-lane-accepted", &[], None, json!({})),
+        Err(e) => {
+            r.outcome(&format!("fork-probe:empty-lane:{}", err_name2(&e)));
+            if residue(parts(&rt0), &rt).is_some() {
+                cx.viol("fork:failed-fork-left-residue:empty-lane", &[], None, json!({}));
+            } else {
+                r.counter("failed_forks_rolled_back", 1);
+            }
+        }
+    }
+}
+
+fn configs(r: &Report) -> Vec<Cfg> {
+    let quick = r.quick();
+    let mut v = vec![Cfg {
+        name: "slots",
+        parent: slots_parent(),
+        strand: slots_strand(),
+        max_strands: 1,
+        pins: false,
+        nested: false,
+        depth: if quick { 5 } else { 6 },
+        probe_depth: if quick { 3 } else { 6 },
+        prefix: vec![],
+    }];
+    v.push(Cfg {
+        name: "structure",
+        parent: struct_parent(),
+        strand: struct_strand(),
+        max_strands: 1,
+        pins: false,
+        nested: false,
+        depth: if quick { 4 } else { 5 },
+        probe_depth: if quick { 3 } else { 5 },
+        prefix: vec![],
+    });
+    v.push(Cfg {
+        name: "two-strands",
+        parent: slots_parent()[..2].to_vec(),
+        strand: slots_strand()[..2].to_vec(),
+        max_strands: 2,
+        pins: true,
+        nested: false,
+        depth: if quick { 4 } else { 6 },
+        probe_depth: if quick { 3 } else { 5 },
+        prefix: vec![Op::Fork { k: 1, src: 0, t: 0 }],
+    });
+    if !quick {
+        v.push(Cfg {
+            name: "nested",
+            parent: slots_parent()[..2].to_vec(),
+            strand: slots_strand()[..2].to_vec(),
+            max_strands: 2,
+            pins: false,
+            nested: true,
+            depth: 5,
+            probe_depth: 4,
+            prefix: vec![],
+        });
+    }
+    v
+}
+
+fn replay(r: &Report, file: &std::path::Path) {
+    let txt = match std::fs::read_to_string(file) {
+        Ok(t) => t,
+        Err(e) => {
+            r.machinery_error(&format!("cannot read replay file: {e}"));
+            return;
+        }
+    };
+    let v: Value = match serde_json::from_str(&txt) {
+        Ok(v) => v,
+        Err(e) => {
+            r.machinery_error(&format!("replay file is not JSON: {e}"));
+            return;
+        }
+    };
+    // accept the detail object itself or a wrapper holding it
+    let case = [
+        v.pointer("/case"),
+        v.pointer("/detail/case"),
+        v.pointer("/violation/detail/case"),
+    ]
+    .into_iter()
+    .flatten()
+    .next()
+    .cloned();
+    let Some(case) = case else {
+        r.machinery_error("replay file has no `case`");
+        return;
+    };
+    let name = case.get("cfg").and_then(Value::as_str).unwrap_or("slots").to_string();
+    let mut all = configs(r);
+    // replay must not depend on the tier: make every configuration maximally permissive
+    for c in &mut all {
+        c.depth = 64;
+        c.probe_depth = 64;
+    }
+    let Some(cfg) = all.into_iter().find(|c| c.name == name).or_else(|| {
+        Some(Cfg {
+            name: "nested",
+            parent: slots_parent()[..2].to_vec(),
+            strand: slots_strand()[..2].to_vec(),
+            max_strands: 2,
+            pins: false,
+            nested: true,
+            depth: 64,
+            probe_depth: 64,
+            prefix: vec![],
+        })
+    }) else {
+        return;
+    };
+    let ops: Vec<Op> = case
+        .get("path")
+        .and_then(Value::as_array)
+        .map(|a| a.iter().filter_map(|x| x.as_str().and_then(Op::dec)).collect())
+        .unwrap_or_default();
+    let cx = Ctx { r, cfg: &cfg, replaying: true };
+    let mut st = match root_state() {
+        Ok(s) => s,
+        Err(e) => {
+            r.machinery_error(&e);
+            return;
+        }
+    };
+    let mut path: Vec<Op> = Vec::new();
+    probes(&cx, &st, &path);
+    for op in ops {
+        let before = r.violation_count();
+        let nxt = step(&cx, &st, &op, &path);
+        println!(
+            "[C15 replay] {:<8} -> {} (violations so far {})",
+            op.enc(),
+            if nxt.is_some() { "new state" } else { "no state change / pruned" },
+            r.violation_count()
+        );
+        let _ = before;
+        path.push(op);
+        if let Some(n) = nxt {
+            st = n;
+            r.add_states(1);
+        }
+        r.add_transitions(1);
+        probes(&cx, &st, &path);
+    }
+    r.add_states(1);
+    r.add_traces(1);
+    r.nontrivial(b"replay");
+    r.nontrivial(b"replay2");
+    r.sample(json!({"replayed": path_str(&path, None), "cfg": cfg.name}));
+}
+
+fn main() {
+    let r = Report::new("C15", Level::ModelChecking);
+    r.rule(
+        "explicit-state BFS (canonical key = hash of the Debug fingerprint of runtime+provenance) over \
+         {parent tick(p_i), fork of the next strand at every tick of the parent (nested cfg: also of a \
+         live strand lane), strand tick(s_j), settle(default|allow-plural), pin/unpin} from a root whose \
+         parent has one committed tick; every state is probed with plan×2, 4 injected settlement \
+         failures per strand and policy, and 6-9 malformed forks. A case is distinct by \
+         (configuration, operation path); non-trivial = a settlement with ≥1 decision or an injected \
+         failure that struck after ≥1 appended entry",
+    );
+    r.assume(
+        "the abstract view reads node/edge/attachment/instance records through GraphStore iterators; \
+         replay_worldline_state_at is used to obtain historical states (cross-checked against frontiers \
+         and recorded state roots at every step)",
+    );
+    r.assume(
+        "must-import is waived for suffix entries writing a slot that a parent entry after the fork \
+         coordinate *declares* written even if its value did not change, and for non-LocalCommit \
+         suffix entries (documented v1 limitation UnsupportedImport)",
+    );
+    r.assume("fresh Engine per tick (engine configuration is constant); SchedulerKind::Radix, 1 worker");
+    if let Some(p) = r.replay.clone() {
+        replay(&r, &p);
+        r.finish();
+    }
+    let cfgs = configs(&r);
+    empty_parent_probe(&r, &cfgs[0]);
+    // budget fractions of the wall cap at which each configuration stops expanding
+    let n = cfgs.len();
+    for (i, cfg) in cfgs.iter().enumerate() {
+        let frac = if r.quick() {
+            0.9
+        } else {
+            0.25 + 0.65 * (i as f64 + 1.0) / n as f64
+        };
+        run_cfg(&r, cfg, frac);
+    }
+    // vacuity guards
+    let c = |n: &str| r.counter_value(n);
+    let o = |n: &str| r.outcome_count(n);
+    r.guard("settlement_with_imported_entry", c("settlements_with_import") > 0);
+    r.guard("settlement_with_conflict_retained", c("settlements_with_conflict") > 0);
+    r.guard("settlement_with_plural_retained_under_allow_plural", c("settlements_with_plural") > 0);
+    r.guard("entry_blocked_behind_retained_artifact", c("settlements_with_entry_blocked_behind_retained") > 0);
+    r.guard("import_followed_by_retained_in_one_settlement", c("settlements_import_then_retained") > 0);
+    r.guard("fork_at_tick_0", o("fork:at-tick-0") > 0);
+    r.guard("fork_at_tick_ge_1", o("fork:at-tick>=1") > 0);
+    r.guard("fork_at_past_tick", o("fork:at-past-tick(not-the-tip)") > 0);
+    r.guard("parent_unmoved_settlement", o("settle:parent-unmoved") > 0);
+    r.guard("parent_moved_disjoint_settlement_with_import", c("imports_on_disjointly_moved_parent") > 0);
+    r.guard("parent_moved_read_overlap_settlement_with_import", c("imports_on_read_overlapping_parent") > 0);
+    r.guard("parent_moved_write_overlap_settlement", o("settle:parent-write-overlap") > 0);
+    r.guard("injected_failure_rolled_back", c("injected_failures_rolled_back") > 0);
+    r.guard(
+        "injected_failure_after_partial_append_rolled_back",
+        c("injected_failures_after_partial_append_rolled_back") > 0,
+    );
+    r.guard("failed_fork_rolled_back", c("failed_forks_rolled_back") > 0);
+    r.guard("parent_and_strand_ticks_seen", o("tick:parent") > 0 && o("tick:strand") > 0);
+    r.guard("second_strand_and_pins_seen", o("pin:pinned") > 0 && o("pin:unpinned") > 0);
+    r.guard("settlement_of_pinned_strand", c("settlements_of_pinned_strand") > 0);
+    if r.thorough() {
+        r.guard("nested_fork_seen", o("fork:nested(from-strand-lane)") > 0);
+        r.guard("settlement_into_strand_lane", c("settlements_into_strand_lane") > 0);
+    }
+    r.finish();
 }
